@@ -186,7 +186,36 @@ def run(m: Model, r: Report, tier: str) -> None:
     rpar14 = rad.params()[1] if len(rad.params()) > 1 else "request"
     arms14 = _dp14.arms(rad.node, rpar14)
     if arms14 is None:
-        r.unrecognised("R3", f"{rad.qualname}#fallthrough", "the dispatch on the request class (isinstance chain / match) was not recognised", rad.loc)
+        # the same dispatch as a table: `for cls_, handler in ((ReqClass, "method" | self.method), ...): if isinstance(request, cls_): return <handler>(request)`
+        tbl_loops = [n for n in rad.node.body if isinstance(n, ast.For) and isinstance(n.target, ast.Tuple) and len(n.target.elts) == 2 and
+                     any(isinstance(x, ast.Call) and ast.unparse(x.func) == "isinstance" and len(x.args) == 2 and ast.unparse(x.args[0]) == rpar14
+                         and ast.unparse(x.args[1]) == ast.unparse(n.target.elts[0]) for x in ast.walk(n))]
+        rows14 = None
+        if len(tbl_loops) == 1:
+            it_ = tbl_loops[0].iter
+            if isinstance(it_, ast.Attribute) and isinstance(it_.value, ast.Name) and it_.value.id in ("self", "cls") and rad.cls is not None:
+                it_ = rad.cls.class_attrs.get(it_.attr, it_)
+            elif isinstance(it_, ast.Name):
+                defs_ = [n.value for n in ast.walk(rad.node) if isinstance(n, (ast.Assign, ast.AnnAssign)) and n.value is not None
+                         and ast.unparse(n.targets[0] if isinstance(n, ast.Assign) else n.target) == it_.id]
+                it_ = defs_[0] if len(defs_) == 1 else rad.module.assigns.get(it_.id, it_)
+            if isinstance(it_, (ast.Tuple, ast.List)) and all(isinstance(e_, ast.Tuple) and len(e_.elts) == 2 for e_ in it_.elts):
+                rows14 = [(ast.unparse(e_.elts[0]), e_.elts[1].value if isinstance(e_.elts[1], ast.Constant) else ast.unparse(e_.elts[1]).split(".")[-1]) for e_ in it_.elts]
+        if rows14 is not None:
+            class _TArm:
+                def __init__(self, cls_text, handler):
+                    self.patterns, self.default, self.guard = [cls_text + "()"], False, None
+                    self.body = [ast.Expr(value=ast.Call(func=ast.Attribute(value=ast.Name(id="self", ctx=ast.Load()), attr=handler, ctx=ast.Load()), args=[], keywords=[]))]
+            arms14 = [_TArm(c_, h_) for c_, h_ in rows14]
+            tail14 = rad.node.body[rad.node.body.index(tbl_loops[0]) + 1:]
+
+            class _DArm:
+                patterns, default, guard = [], True, None
+            d_ = _DArm()
+            d_.body = tail14
+            arms14.append(d_)
+    if arms14 is None:
+        r.unrecognised("R3", f"{rad.qualname}#fallthrough", "the dispatch on the request class (isinstance chain / match / table) was not recognised", rad.loc)
     else:
         dflt14 = _dp14.default_arm(arms14)
         tail_ = dflt14.body if dflt14 is not None else rad.node.body
